@@ -389,7 +389,7 @@ func ruleReadErrorsSurface(p *Prog, r *Report, rule string) {
 			return ok && c.Call.IsInvoke() && moves[c.Call.Method.Name()] && recv(c.Call.Value)
 		}
 	}
-	for _, name := range []string{"(*dbIter).First", "(*dbIter).Last", "(*dbIter).Seek", "(*dbIter).Next", "(*dbIter).next", "(*dbIter).Prev" /* (*dbIter).prev: suspected defect D10 under triage, armed once demonstrated */} {
+	for _, name := range []string{"(*dbIter).First", "(*dbIter).Last", "(*dbIter).Seek", "(*dbIter).Next", "(*dbIter).next", "(*dbIter).Prev", "(*dbIter).prev"} {
 		fn := resolveFn(p, r, "leveldb", name)
 		if fn == nil {
 			continue
@@ -406,9 +406,12 @@ func ruleReadErrorsSurface(p *Prog, r *Report, rule string) {
 		})
 		r.Site(1)
 		// from after a failing inner movement to a return: iterErr (or another inner move / helper that does it) is passed
-		handled := orPred(evCall("(*leveldb.dbIter).iterErr"), evCall("(*leveldb.dbIter).prev", "(*leveldb.dbIter).next", "(*leveldb.dbIter).Last", "(*leveldb.dbIter).First"), mv)
+		consultsErr := func(in ssa.Instruction) bool {
+			return isInvokeNamed(in, "Error") && argIsRecv(in, mFieldLoad(tDbIter, "iter"))
+		}
+		handled := orPred(evCall("(*leveldb.dbIter).iterErr"), consultsErr, evCall("(*leveldb.dbIter).prev", "(*leveldb.dbIter).next", "(*leveldb.dbIter).Last", "(*leveldb.dbIter).First"), mv)
 		if w := findPath(after(fn, mv), falseEdge, handled, isReturn); w != nil {
-			r.Fail(fnName(fn), "inner-error-swallowed", "after the raw iterator stops, its error is transferred (iterErr) before end-of-data is reported", "a path returns after a failed raw movement without i.iterErr(): a read error looks like the end of the data", p.posOfLast(w, isReturn), p.renderPath(w))
+			r.Fail(fnName(fn), "inner-error-swallowed", "after the raw iterator stops, its error is consulted/transferred before a result is reported", "a path returns after a failed raw movement without consulting the raw iterator's error: a read error looks like the end of the data (or a stale candidate is presented as valid)", p.posOfLast(w, isReturn), p.renderPath(w))
 		} else {
 			r.OK(fnName(fn), "inner-error-transferred", "after the raw iterator stops, its error is transferred before end-of-data is reported")
 		}
